@@ -85,10 +85,12 @@ def main():
             if kernel:
                 shutil.copy('/root/similarity.c.bak', KERNEL_C)
             subprocess.run(['git', '-C', '/repo', 'checkout', '--', '.'], check=True)
-        if meta.get('confirmation', {}).get('confirmed') is False:
-            meta['note'] = ('not a valid property-breaking change on the current tree: its demonstration passes with the '
-                            'change applied, because a later fix: commit closed the route it relied on (C10-b: c0dd9604 '
-                            'rebinds descriptor dicts; C03-g: ebdd0772 casts dissimilarities to float on entry)')
+        notes = json.load(open(f'{V}/seeded/NOTES.json'))
+        if sid in notes:
+            meta['status'] = notes[sid]['status']
+            meta['note'] = notes[sid]['note']
+        elif meta.get('confirmation', {}).get('confirmed') is False:
+            meta['note'] = 'NOT CONFIRMED on the current tree and not yet triaged'
         json.dump(meta, open(f'{d}/meta.json', 'w'), indent=1)
         det = meta['detection']
         print(sid, 'caught' if det.get('caught') else 'MISSED', det.get('caught_by_tier'),
